@@ -73,6 +73,26 @@ CLAIMED.update({
         technique='symbolic execution of rustc MIR with z3 from fabricated VM states (one step), native replay through eval', design='4/C15'),
 })
 
+CLAIMED.update({
+    'C13': dict(
+        text='Budget-composition lemma, bounded: the real Vm::run_count / run / run_one / run_gc executed from MIR on fabricated programs (a call with an '
+             'allocation, nested calls; heaps with garbage so that slice-end collections do real work) with the slice budgets n1, n2, n3 as solver '
+             'variables in 1..8 (thorough 1..12): every slice executes at least one instruction (ghost count of run_one), the sliced run terminates, and '
+             'yields the value and final sp/bp/ep of the uninterrupted run.',
+        note='Programs are fabricated bytecode, not compiler output; whole programs and the wasm front-end loop are outside the claim. Counterexamples are '
+             're-run slice by slice on the real VM through the verif-hooks feature.',
+        technique='symbolic execution of rustc MIR with z3 (symbolic budgets on fabricated programs), native replay through hooks', design='4/C13'),
+    'C07': dict(
+        text='Register / stack step lemma, bounded: a fabricated evaluation fails at call depth 0..2 (thorough 3) through each error source of run_one '
+             '(non-procedure call, unbound global, arity mismatch, bad operand, and a call through a SYMBOLIC heap index ranging over procedures of arity '
+             '0/1/2, a number, a string and nil so that the solver decides which calls fail), 1 or 3 (thorough 5) times in a row; afterwards sp/bp/ep must '
+             'equal those of a VM that never failed, a later successful evaluation must return the same value and registers, and a later failing evaluation '
+             'the same error and the same number of stack-trace frames as in a fresh VM.',
+        note='Read and compile errors (no VM state touched before run) and failures inside continuations are outside. The shapes are enumerated; the symbolic '
+             'content is the call target and data operands. Counterexamples are replayed on the real VM through the verif-hooks feature.',
+        technique='symbolic execution of rustc MIR with z3 from fabricated VM states, native replay through hooks', design='4/C07'),
+})
+
 NOT_APPLICABLE = {
     'C01': 'whole-pipeline property over arbitrary programs (reader -> syntax-rules prelude -> compiler -> VM): no engine here can push a symbolic program through it; enumerating program shapes would be testing, not solver work (DESIGN.md section 5)',
     'C02': 'scoping is a relation between compile-time environment maps and run-time environment chains across nested activations of whole programs; the only solver-sized kernel restates the code (DESIGN.md section 5)',
